@@ -92,54 +92,55 @@ def byEra (f : CalFields) : CalPartial := ⟨f.era, f.eraYear, none, none, some 
 /-- The era route works: the reported era is in the table, the reported era year is inside its bounds, and the
     library, given the table's code for it, returns the date. -/
 def EraRouteOk (cal : CalId) (f : CalFields) (iso : IsoDate) : Prop :=
-  ∃ e ey, resolveEraYear cal (byEra f) = .ok (e, ey) ∧ fromCodes cal e ey f.monthCode f.day = some iso
+  ∃ e ey, resolveEraYear cal (byEra f) = .ok (e, ey) ∧ (-300000 ≤ ey ∧ ey ≤ 300000) ∧
+    fromCodes cal e ey f.monthCode f.day = some iso
 
-theorem era_route_gregory (y m d : Int) (hv : Valid y m d) :
+theorem era_route_gregory (y m d : Int) (hv : Valid y m d) (hy : -271821 ≤ y ∧ y ≤ 275760) :
     EraRouteOk .gregory (isoFields .gregory y m d) ⟨y, m, d⟩ := by
   have ht := tryNewIso_valid y m d hv
   have e1 : eraInfo .gregory "gregory" = some ⟨"ce", some 1, none⟩ := by decide +kernel
   have e2 : eraInfo .gregory "gregory-inverse" = some ⟨"bce", some 1, none⟩ := by decide +kernel
   by_cases h : y > 0
-  · refine ⟨some "ce", y, ?_, ?_⟩
+  · refine ⟨some "ce", y, ?_, by omega, ?_⟩
     · have : 1 ≤ y := by omega
       simp [resolveEraYear, byEra, isoFields, yearInfo, h, e1, EraInfo.contains, this]
     · have : ¬ y ≤ 0 := by omega
       simp [fromCodes, isoFields, this, ht]
-  · refine ⟨some "bce", 1 - y, ?_, ?_⟩
+  · refine ⟨some "bce", 1 - y, ?_, by omega, ?_⟩
     · have : 1 ≤ 1 - y := by omega
       simp [resolveEraYear, byEra, isoFields, yearInfo, h, e2, EraInfo.contains, this]
     · have : ¬ 1 - y ≤ 0 := by omega
       have e : 1 - (1 - y) = y := by omega
       simp [fromCodes, isoFields, this, e, ht]
 
-theorem era_route_buddhist (y m d : Int) (hv : Valid y m d) :
+theorem era_route_buddhist (y m d : Int) (hv : Valid y m d) (hy : -271821 ≤ y ∧ y ≤ 275760) :
     EraRouteOk .buddhist (isoFields .buddhist y m d) ⟨y, m, d⟩ := by
   have ht := tryNewIso_valid y m d hv
   have e1 : eraInfo .buddhist "buddhist" = some ⟨"be", none, none⟩ := by decide +kernel
-  refine ⟨some "be", y + 543, ?_, ?_⟩
+  refine ⟨some "be", y + 543, ?_, by omega, ?_⟩
   · simp [resolveEraYear, byEra, isoFields, yearInfo, e1, EraInfo.contains]
   · simp [fromCodes, isoFields, ht]
 
-theorem era_route_roc (y m d : Int) (hv : Valid y m d) :
+theorem era_route_roc (y m d : Int) (hv : Valid y m d) (hy : -271821 ≤ y ∧ y ≤ 275760) :
     EraRouteOk .roc (isoFields .roc y m d) ⟨y, m, d⟩ := by
   have ht := tryNewIso_valid y m d hv
   have e1 : eraInfo .roc "roc" = some ⟨"roc", some 1, none⟩ := by decide +kernel
   have e2 : eraInfo .roc "roc-inverse" = some ⟨"roc-inverse", some 1, none⟩ := by decide +kernel
   by_cases h : y > 1911
-  · refine ⟨some "roc", y - 1911, ?_, ?_⟩
+  · refine ⟨some "roc", y - 1911, ?_, by omega, ?_⟩
     · have : 1 ≤ y - 1911 := by omega
       simp [resolveEraYear, byEra, isoFields, yearInfo, h, e1, EraInfo.contains, this]
     · have : ¬ y - 1911 ≤ 0 := by omega
       have e : y - 1911 + 1911 = y := by omega
       simp [fromCodes, isoFields, this, e, ht]
-  · refine ⟨some "roc-inverse", 1912 - y, ?_, ?_⟩
+  · refine ⟨some "roc-inverse", 1912 - y, ?_, by omega, ?_⟩
     · have : 1 ≤ 1912 - y := by omega
       simp [resolveEraYear, byEra, isoFields, yearInfo, h, e2, EraInfo.contains, this]
     · have : ¬ 1912 - y ≤ 0 := by omega
       have e : 1 - (1912 - y) + 1911 = y := by omega
       simp [fromCodes, isoFields, this, e, ht]
 
-theorem era_route_japanese (y m d : Int) (hv : Valid y m d) :
+theorem era_route_japanese (y m d : Int) (hv : Valid y m d) (hy : -271821 ≤ y ∧ y ≤ 275760) :
     EraRouteOk .japanese (isoFields .japanese y m d) ⟨y, m, d⟩ := by
   have ht := tryNewIso_valid y m d hv
   have h12 : ¬ (m.toNat > 12) := by have := hv.2.1; omega
@@ -157,7 +158,7 @@ theorem era_route_japanese (y m d : Int) (hv : Valid y m d) :
     simp only at b1
     have c1 : 1 ≤ y - 2018 := by omega
     have ey : 2019 + (y - 2018) - 1 = y := by omega
-    refine ⟨some "reiwa", y - 2018, ?_, ?_⟩
+    refine ⟨some "reiwa", y - 2018, ?_, by omega, ?_⟩
     · simp [resolveEraYear, byEra, isoFields, yearInfo, ea, i1, EraInfo.contains, c1]
     · simp [fromCodes, japaneseFromCodes, japaneseEras, isoFields, h12, ey, em, a1, ht]
   · have b1 := (ymdLe_false_iff _ _).mp a1
@@ -166,7 +167,7 @@ theorem era_route_japanese (y m d : Int) (hv : Valid y m d) :
     have c1 : 1 ≤ y - 1988 := by omega
     have c2 : y - 1988 ≤ 31 := by omega
     have ey : 1989 + (y - 1988) - 1 = y := by omega
-    refine ⟨some "heisei", y - 1988, ?_, ?_⟩
+    refine ⟨some "heisei", y - 1988, ?_, by omega, ?_⟩
     · simp [resolveEraYear, byEra, isoFields, yearInfo, ea, i2, EraInfo.contains, c1, c2]
     · simp [fromCodes, japaneseFromCodes, japaneseEras, isoFields, h12, ey, em, a1, a2, ht]
   · have b1 := (ymdLe_false_iff _ _).mp a1
@@ -175,7 +176,7 @@ theorem era_route_japanese (y m d : Int) (hv : Valid y m d) :
     have c1 : 1 ≤ y - 1925 := by omega
     have c2 : y - 1925 ≤ 64 := by omega
     have ey : 1926 + (y - 1925) - 1 = y := by omega
-    refine ⟨some "showa", y - 1925, ?_, ?_⟩
+    refine ⟨some "showa", y - 1925, ?_, by omega, ?_⟩
     · simp [resolveEraYear, byEra, isoFields, yearInfo, ea, i3, EraInfo.contains, c1, c2]
     · simp [fromCodes, japaneseFromCodes, japaneseEras, isoFields, h12, ey, em, a1, a2, ht]
   · have b1 := (ymdLe_false_iff _ _).mp a1
@@ -184,7 +185,7 @@ theorem era_route_japanese (y m d : Int) (hv : Valid y m d) :
     have c1 : 1 ≤ y - 1911 := by omega
     have c2 : y - 1911 ≤ 15 := by omega
     have ey : 1912 + (y - 1911) - 1 = y := by omega
-    refine ⟨some "taisho", y - 1911, ?_, ?_⟩
+    refine ⟨some "taisho", y - 1911, ?_, by omega, ?_⟩
     · simp [resolveEraYear, byEra, isoFields, yearInfo, ea, i4, EraInfo.contains, c1, c2]
     · simp [fromCodes, japaneseFromCodes, japaneseEras, isoFields, h12, ey, em, a1, a2, ht]
   · have b1 := (ymdLe_false_iff _ _).mp a1
@@ -193,13 +194,13 @@ theorem era_route_japanese (y m d : Int) (hv : Valid y m d) :
     have c1 : 1 ≤ y - 1867 := by omega
     have c2 : y - 1867 ≤ 45 := by omega
     have ey : 1868 + (y - 1867) - 1 = y := by omega
-    refine ⟨some "meiji", y - 1867, ?_, ?_⟩
+    refine ⟨some "meiji", y - 1867, ?_, by omega, ?_⟩
     · simp [resolveEraYear, byEra, isoFields, yearInfo, ea, i5, EraInfo.contains, c1, c2]
     · simp [fromCodes, japaneseFromCodes, japaneseEras, isoFields, h12, ey, em, a1, a2, ht]
   · have c1 : 1 ≤ 1 - y := by omega
     have c2 : ¬ 1 - y ≤ 0 := by omega
     have ey : 1 - (1 - y) = y := by omega
-    refine ⟨some "japanese-inverse", 1 - y, ?_, ?_⟩
+    refine ⟨some "japanese-inverse", 1 - y, ?_, by omega, ?_⟩
     · simp [resolveEraYear, byEra, isoFields, yearInfo, ea, i6, EraInfo.contains, c1]
     · simp [fromCodes, japaneseFromCodes, isoFields, h12, c2, ey, ht]
   · have b1 := (ymdLe_false_iff _ _).mp a1
@@ -207,18 +208,20 @@ theorem era_route_japanese (y m d : Int) (hv : Valid y m d) :
     have c1 : 1 ≤ y := by omega
     have c2 : y ≤ 1868 := by omega
     have c3 : ¬ y ≤ 0 := by omega
-    refine ⟨some "japanese", y, ?_, ?_⟩
+    refine ⟨some "japanese", y, ?_, by omega, ?_⟩
     · simp [resolveEraYear, byEra, isoFields, yearInfo, ea, i7, EraInfo.contains, c1, c2]
     · simp [fromCodes, japaneseFromCodes, isoFields, h12, c3, ht]
 
 /-- day-count calendars: what the era route needs from each calendar, given the library's year route -/
 theorem era_route_arith (cal : CalId) (c : ACal) (hc : cal.arith = some c) (h : c.Lawful InDayWin) (iso : IsoDate)
-    (hr : InRange iso) :
+    (hr : InRange iso)
+    (hyb : -290000 ≤ (c.ofDay (dayNumber iso.year iso.month iso.day)).1 ∧
+      (c.ofDay (dayNumber iso.year iso.month iso.day)).1 ≤ 290000) :
     EraRouteOk cal (arithFields cal c (dayNumber iso.year iso.month iso.day)) iso := by
   have hrt := arithFromCodes_roundtrip h iso hr
   unfold EraRouteOk byEra arithFields
   simp only
-  generalize (c.ofDay (dayNumber iso.year iso.month iso.day)) = ymd at hrt ⊢
+  generalize (c.ofDay (dayNumber iso.year iso.month iso.day)) = ymd at hrt hyb ⊢
   have j1 : eraInfo .coptic "coptic" = some ⟨"coptic", some 1, none⟩ := by decide +kernel
   have j2 : eraInfo .coptic "coptic-inverse" = some ⟨"coptic-inverse", some 1, none⟩ := by decide +kernel
   have j3 : eraInfo .ethiopic "ethiopic" = some ⟨"ethiopic", some 1, none⟩ := by decide +kernel
@@ -227,48 +230,53 @@ theorem era_route_arith (cal : CalId) (c : ACal) (hc : cal.arith = some c) (h : 
   have j6 : eraInfo .indian "saka" = some ⟨"indian", none, none⟩ := by decide +kernel
   have j7 : eraInfo .islamicCivil "islamic-civil" = some ⟨"islamic-civil", none, none⟩ := by decide +kernel
   have j8 : eraInfo .islamicTbla "islamic-tbla" = some ⟨"islamic-tbla", none, none⟩ := by decide +kernel
+  have j9 : eraInfo .persian "persian" = some ⟨"persian", none, none⟩ := by decide +kernel
   cases cal <;> simp [CalId.arith] at hc <;> subst hc
   case coptic =>
     by_cases hy : ymd.1 > 0
     · have c1 : 1 ≤ ymd.1 := by omega
       have c2 : ¬ ymd.1 ≤ 0 := by omega
-      refine ⟨some "coptic", ymd.1, ?_, ?_⟩
+      refine ⟨some "coptic", ymd.1, ?_, by omega, ?_⟩
       · simp [resolveEraYear, yearInfo, hy, j1, EraInfo.contains, c1]
       · simp [fromCodes, c2, hrt]
     · have c1 : 1 ≤ 1 - ymd.1 := by omega
       have c2 : ¬ 1 - ymd.1 ≤ 0 := by omega
       have e : 1 - (1 - ymd.1) = ymd.1 := by omega
-      refine ⟨some "coptic-inverse", 1 - ymd.1, ?_, ?_⟩
+      refine ⟨some "coptic-inverse", 1 - ymd.1, ?_, by omega, ?_⟩
       · simp [resolveEraYear, yearInfo, hy, j2, EraInfo.contains, c1]
       · simp [fromCodes, c2, e, hrt]
   case ethiopic =>
     by_cases hy : ymd.1 > 0
     · have c1 : 1 ≤ ymd.1 := by omega
       have c2 : ¬ ymd.1 ≤ 0 := by omega
-      refine ⟨some "ethiopic", ymd.1, ?_, ?_⟩
+      refine ⟨some "ethiopic", ymd.1, ?_, by omega, ?_⟩
       · simp [resolveEraYear, yearInfo, hy, j3, EraInfo.contains, c1]
       · simp [fromCodes, c2, hrt]
     · have c1 : 1 ≤ 1 - ymd.1 := by omega
       have c2 : ¬ 1 - ymd.1 ≤ 0 := by omega
       have e : 1 - (1 - ymd.1) = ymd.1 := by omega
-      refine ⟨some "ethiopic-inverse", 1 - ymd.1, ?_, ?_⟩
+      refine ⟨some "ethiopic-inverse", 1 - ymd.1, ?_, by omega, ?_⟩
       · simp [resolveEraYear, yearInfo, hy, j4, EraInfo.contains, c1]
       · simp [fromCodes, c2, e, hrt]
   case ethioaa =>
-    refine ⟨some "ethioaa", ymd.1 + 5500, ?_, ?_⟩
+    refine ⟨some "ethioaa", ymd.1 + 5500, ?_, by omega, ?_⟩
     · simp [resolveEraYear, yearInfo, j5, EraInfo.contains]
     · simp [fromCodes, hrt]
   case indian =>
-    refine ⟨some "indian", ymd.1, ?_, ?_⟩
+    refine ⟨some "indian", ymd.1, ?_, by omega, ?_⟩
     · simp [resolveEraYear, yearInfo, j6, EraInfo.contains]
     · simp [fromCodes, hrt]
   case islamicCivil =>
-    refine ⟨some "islamic-civil", ymd.1, ?_, ?_⟩
+    refine ⟨some "islamic-civil", ymd.1, ?_, by omega, ?_⟩
     · simp [resolveEraYear, yearInfo, j7, EraInfo.contains]
     · simp [fromCodes, hrt]
   case islamicTbla =>
-    refine ⟨some "islamic-tbla", ymd.1, ?_, ?_⟩
+    refine ⟨some "islamic-tbla", ymd.1, ?_, by omega, ?_⟩
     · simp [resolveEraYear, yearInfo, j8, EraInfo.contains]
+    · simp [fromCodes, hrt]
+  case persian =>
+    refine ⟨some "persian", ymd.1, ?_, by omega, ?_⟩
+    · simp [resolveEraYear, yearInfo, j9, EraInfo.contains]
     · simp [fromCodes, hrt]
 
 end Cal
